@@ -411,7 +411,9 @@ class FromArgs(Generic[T]):
         if i in self._i_to_arg:
             # Compare by key, not by ==, so that 1/True/1.0 or 0.0/-0.0 are not
             # silently merged and NaN constants are equal to themselves
-            assert self._hash_fn(self._i_to_arg[i]) == self._hash_fn(arg)
+            # (raised explicitly, so that the check is kept when running with -O)
+            if self._hash_fn(self._i_to_arg[i]) != self._hash_fn(arg):
+                raise AssertionError(f"Two different args at index {i}")
         self._i_to_arg[i] = arg
         # If the same arg is at multiple positions, the ones without a position
         # override refer to the first
@@ -456,11 +458,14 @@ def verify_block(blocks: Blocks) -> None:
     instruction that jumps can find it's block.
     """
     for block in blocks:
-        assert block, "Block is empty"
+        # Raised explicitly, so that the checks are kept when running with -O
+        if not block:
+            raise AssertionError("Block is empty")
         for instruction in block:
             arg = instruction.arg
             if isinstance(arg, Jump):
-                assert arg.target in range(len(blocks)), "Jump target is out of range"
+                if arg.target not in range(len(blocks)):
+                    raise AssertionError("Jump target is out of range")
 
 
 # Bytecode instructions jumps refer to the instruction offset, instead of byte
